@@ -342,6 +342,9 @@ def classify(out, reports, byid, counters):
         for f in r.get("fails", []):
             if rec["kind"] == "tag":
                 sig = {"family": "tagging", "clause": _group(f["c"]), "pattern": f["pat"]}
+                if f.get("hosts"):
+                    # where (parent kind : child position) the unshared occurrences stand
+                    sig["host"] = ",".join(sorted(set(f["hosts"])))
                 case = {"id": rec["id"], "kind": "tag", "ins": rec["ins"]}
                 detail = {"case": case, "failing_clause": f["c"], "outs": rec.get("outs"),
                           "vals": rec.get("vals"), "verdict": r}
@@ -516,7 +519,8 @@ def run(tier, seed, out):
     out.extra["helper_cells"] = len(wraps)
     out.extra["negative_controls_refuted_on_model"] = refuted
     out.extra["design_level_classes_on_model"] = [list(d) for d in dclasses]
-    out.extra["design_level_failures_on_model"] = len(design)
+    out.extra["design_level_failures_on_model"] = len([d for d in design if d["design"] != "OK"])
+    out.extra["out_of_scope_lists_not_shared_on_model"] = len([d for d in design if d["design"] == "OK"])
     out.extra["observations"] = {k: v for k, v in counters.items() if k != "drift"}
     out.rule = ("TLC enumerates (a) lists of 1-3 expressions: list skeletons whose typed holes are "
                 "filled from a sharing-heavy pool (repeated, commuted, multiplicity twins, nested "
